@@ -104,6 +104,38 @@ Definition run (v : val) : val :=
     let '(t, e) := lifespan (dlist d_comp cs) (dlist d_lmsg msgs) in
     let '(t', e') := spec_lifespan (dlist d_comp cs) (dlist d_lmsg msgs) in
     L [I 1; vlist v_levent t; v_lending e; vlist v_levent t'; v_lending e']
+  | L [I 3; asgi; indep; b0; bs; q] =>
+    (* constructor batch b0, then add_middleware calls bs (TypeErrors caught by the caller) *)
+    let d_batch (v : val) : batch :=
+      let k := dZ (nth_val 0 v) in
+      if k =? 0 then BNone
+      else if k =? 1 then BOne (d_comp (nth_val 1 v))
+      else BMany (dlist d_comp (nth_val 1 v)) in
+    match new_app (dbool asgi) (dbool indep) (d_batch b0) with
+    | None => L [I 0]
+    | Some a0 =>
+      let '(a, oks) := add_all (dbool asgi) (dbool indep) a0 (dlist d_batch bs) in
+      match a_stacks a with
+      | None => L [I 0]
+      | Some st =>
+        let '(t, e) := run_request (dbool indep) st (d_request q) in
+        L [I 1; vlist v_event t; v_ending e; vlist vbool oks; vnat (length (a_unprepared a))]
+      end
+    end
+  | L [I 4; b0; bs; msgs] =>
+    (* lifespan over the accumulated _unprepared_middleware *)
+    let d_batch (v : val) : batch :=
+      let k := dZ (nth_val 0 v) in
+      if k =? 0 then BNone
+      else if k =? 1 then BOne (d_comp (nth_val 1 v))
+      else BMany (dlist d_comp (nth_val 1 v)) in
+    match new_app true true (d_batch b0) with
+    | None => L [I 0]
+    | Some a0 =>
+      let '(a, oks) := add_all true true a0 (dlist d_batch bs) in
+      let '(t, e) := lifespan (a_unprepared a) (dlist d_lmsg msgs) in
+      L [I 1; vlist v_levent t; v_lending e; vlist vbool oks]
+    end
   | _ => L [I (-1)]
   end.
 
